@@ -12,8 +12,8 @@
    Types are C16's `ty` (Ty/Spec.v); a binding is identified by its name (the generator makes names unique).
    Results are three-valued: IOk t (the checker commits to t), IErr (the checker records an error; the
    expression then counts as Never), IUnk (the construct is outside the modelled fragment: no claim). *)
-From Coq Require Import ZArith String List Bool.
-From SV Require Import Core.Syntax Ty.Spec Ty.Model Extracted.TypingC.
+From Coq Require Import ZArith String Ascii List Bool.
+From SV Require Import Core.Syntax Core.Slice Ty.Spec Ty.Model Extracted.TypingC.
 Import ListNotations.
 Open Scope string_scope.
 Open Scope list_scope.
@@ -501,7 +501,9 @@ Definition solve (fixmul : bool) (sigs : sigmap) (prog : list stmt) : tmap * boo
   let bs := group (flat_map stmt_binds prog) in
   solve_loop fixmul sigs bs (Z.to_nat iterations) (init_types sigs prog bs) false.
 
-(* ---- the pure semantics of the expression fragment (values of the mutation-free core) ---------------- *)
+(* ---- the pure semantics of the expression fragment (values of the mutation-free core) ----------------
+   literals, names, displays, unary/binary operators incl. `in`, and/or/conditional, indexing, slicing, calls of
+   pure builtins; comprehensions, methods, lambdas and calls of defs are outside (None). *)
 Inductive pv := PNone | PBool (b : bool) | PInt (z : Z) | PStr (s : string)
               | PList (l : list pv) | PTuple (l : list pv) | PDict (kvs : list (pv * pv)).
 
@@ -559,31 +561,6 @@ Definition scalar_eqb (a b : pv) : option bool :=
   | _, _ => Some false
   end.
 
-Definition bin_sem (o : binop) (a b : pv) : option pv :=
-  match o with
-  | BEq => option_map PBool (scalar_eqb a b)
-  | BNe => option_map (fun r => PBool (negb r)) (scalar_eqb a b)
-  | BLt | BLe | BGt | BGe =>
-      match a, b with
-      | PInt x, PInt y => option_map PBool (cmp_res o (Z.compare x y))
-      | PStr x, PStr y => option_map PBool (cmp_res o (String.compare x y))
-      | _, _ => None
-      end
-  | BIn | BNotIn => None
-  | _ =>
-      match a, b with
-      | PInt x, PInt y => option_map PInt (int_arith o x y)
-      | PStr x, PStr y => match o with BAdd => Some (PStr (String.append x y)) | _ => None end
-      | PStr x, PInt n => match o with BMul => Some (PStr (repeat_str (Z.to_nat n) x)) | _ => None end
-      | PInt n, PStr x => match o with BMul => Some (PStr (repeat_str (Z.to_nat n) x)) | _ => None end
-      | PList x, PList y => match o with BAdd => Some (PList (x ++ y)) | _ => None end
-      | PList x, PInt n => match o with BMul => Some (PList (repeat_list (Z.to_nat n) x)) | _ => None end
-      | PInt n, PList x => match o with BMul => Some (PList (repeat_list (Z.to_nat n) x)) | _ => None end
-      | PTuple x, PTuple y => match o with BAdd => Some (PTuple (x ++ y)) | _ => None end
-      | _, _ => None
-      end
-  end.
-
 Definition seq_index (l : list pv) (i : Z) : option pv :=
   let n := Z.of_nat (length l) in
   let j := if Z.ltb i 0 then (i + n)%Z else i in
@@ -594,8 +571,134 @@ Fixpoint dict_find (kvs : list (pv * pv)) (k : pv) : option pv :=
   | (k', w) :: r => match scalar_eqb k k' with Some true => Some w | _ => dict_find r k end
   end.
 
+(* `x in c`: substring test on strings, membership of a scalar in a list/tuple, key membership in a dict
+   (None: the comparison needs the equality of containers, or the operand kinds do not support `in`) *)
+Fixpoint is_substr (x s : string) : bool :=
+  String.prefix x s || match s with EmptyString => false | String _ r => is_substr x r end.
+Fixpoint mem_scalar (l : list pv) (x : pv) : option bool :=
+  match l with
+  | [] => Some false
+  | y :: r => match scalar_eqb x y with
+              | Some true => Some true
+              | Some false => mem_scalar r x
+              | None => None
+              end
+  end.
+Definition in_sem (x c : pv) : option bool :=
+  match c with
+  | PStr s => match x with PStr t => Some (is_substr t s) | _ => None end
+  | PList l | PTuple l => mem_scalar l x
+  | PDict kvs => match x with
+                 | PList _ | PTuple _ | PDict _ => None       (* unhashable *)
+                 | _ => Some (match dict_find kvs x with Some _ => true | None => false end)
+                 end
+  | _ => None
+  end.
+
+Definition bin_sem (o : binop) (a b : pv) : option pv :=
+  match o with
+  | BEq => option_map PBool (scalar_eqb a b)
+  | BNe => option_map (fun r => PBool (negb r)) (scalar_eqb a b)
+  | BLt | BLe | BGt | BGe =>
+      match a, b with
+      | PInt x, PInt y => option_map PBool (cmp_res o (Z.compare x y))
+      | PStr x, PStr y => option_map PBool (cmp_res o (String.compare x y))
+      | _, _ => None
+      end
+  | BIn => option_map PBool (in_sem a b)
+  | BNotIn => option_map (fun r => PBool (negb r)) (in_sem a b)
+  | _ =>
+      match a, b with
+      | PInt x, PInt y => option_map PInt (int_arith o x y)
+      | PStr x, PStr y => match o with BAdd => Some (PStr (String.append x y)) | _ => None end
+      | PStr x, PInt n => match o with BMul => Some (PStr (repeat_str (Z.to_nat n) x)) | _ => None end
+      | PInt n, PStr x => match o with BMul => Some (PStr (repeat_str (Z.to_nat n) x)) | _ => None end
+      | PList x, PList y => match o with BAdd => Some (PList (x ++ y)) | _ => None end
+      | PList x, PInt n => match o with BMul => Some (PList (repeat_list (Z.to_nat n) x)) | _ => None end
+      | PInt n, PList x => match o with BMul => Some (PList (repeat_list (Z.to_nat n) x)) | _ => None end
+      | PTuple x, PTuple y => match o with BAdd => Some (PTuple (x ++ y)) | _ => None end
+      | PTuple x, PInt n => match o with BMul => Some (PTuple (repeat_list (Z.to_nat n) x)) | _ => None end
+      | PInt n, PTuple x => match o with BMul => Some (PTuple (repeat_list (Z.to_nat n) x)) | _ => None end
+      | _, _ => None
+      end
+  end.
+
+(* a[lo:hi:st] on str/list/tuple: Core/Slice.v's specification of values/index.rs (strings as lists of bytes) *)
+Definition slice_sem (v : pv) (lo hi st : option Z) : option pv :=
+  match v with
+  | PList l => option_map PList (slice_spec l lo hi st)
+  | PTuple l => option_map PTuple (slice_spec l lo hi st)
+  | PStr s => option_map (fun cs => PStr (string_of_list_ascii cs)) (slice_spec (list_ascii_of_string s) lo hi st)
+  | _ => None
+  end.
+
+(* the pure builtins the generator uses, on the argument kinds the pure semantics covers (None otherwise) *)
+Definition ints_of (l : list pv) : option (list Z) := mapo (fun v => match v with PInt z => Some z | _ => None end) l.
+Fixpoint zinsert (z : Z) (l : list Z) : list Z :=
+  match l with [] => [z] | y :: r => if Z.leb z y then z :: l else y :: zinsert z r end.
+Definition zsort (l : list Z) : list Z := fold_right zinsert [] l.
+Definition seq_of (v : pv) : option (list pv) :=
+  match v with PList l | PTuple l => Some l | PDict kvs => Some (map fst kvs) | _ => None end.
+Definition builtin_sem (f : string) (vs : list pv) : option pv :=
+  if String.eqb f "len" then
+    match vs with
+    | [PStr s] => Some (PInt (Z.of_nat (String.length s)))
+    | [PList l] | [PTuple l] => Some (PInt (Z.of_nat (length l)))
+    | [PDict kvs] => Some (PInt (Z.of_nat (length kvs)))
+    | _ => None
+    end
+  else if String.eqb f "str" then
+    match vs with
+    | [PStr s] => Some (PStr s)
+    | [PNone] => Some (PStr "None")
+    | [PBool b] => Some (PStr (if b then "True" else "False"))
+    | _ => None
+    end
+  else if String.eqb f "bool" then
+    match vs with [] => Some (PBool false) | [v] => Some (PBool (truthy v)) | _ => None end
+  else if String.eqb f "int" then
+    match vs with [PInt z] => Some (PInt z) | [PBool b] => Some (PInt (if b then 1 else 0)) | _ => None end
+  else if String.eqb f "any" then
+    match vs with [v] => option_map (fun l => PBool (existsb truthy l)) (seq_of v) | _ => None end
+  else if String.eqb f "all" then
+    match vs with [v] => option_map (fun l => PBool (forallb truthy l)) (seq_of v) | _ => None end
+  else if String.eqb f "abs" then
+    match vs with [PInt z] => Some (PInt (Z.abs z)) | _ => None end
+  else if String.eqb f "min" then
+    match vs with
+    | [v] => match seq_of v with
+             | Some l => match ints_of l with Some (z :: zs) => Some (PInt (fold_left Z.min zs z)) | _ => None end
+             | None => None
+             end
+    | _ => None
+    end
+  else if String.eqb f "max" then
+    match vs with
+    | [v] => match seq_of v with
+             | Some l => match ints_of l with Some (z :: zs) => Some (PInt (fold_left Z.max zs z)) | _ => None end
+             | None => None
+             end
+    | _ => None
+    end
+  else if String.eqb f "sorted" then
+    match vs with
+    | [v] => match seq_of v with
+             | Some l => option_map (fun zs => PList (map PInt (zsort zs))) (ints_of l)
+             | None => None
+             end
+    | _ => None
+    end
+  else if String.eqb f "list" then
+    match vs with [] => Some (PList []) | [v] => option_map PList (seq_of v) | _ => None end
+  else None.
+
 Section Eval.
   Variable rho : list (string * pv).
+  Definition peval_opt (rec : expr -> option pv) (o : option expr) : option (option Z) :=   (* an absent or int slice bound *)
+    match o with
+    | None => Some None
+    | Some e => match rec e with Some (PInt z) => Some (Some z) | _ => None end
+    end.
   Fixpoint peval (e : expr) : option pv :=
     match e with
     | ENone => Some PNone
@@ -622,6 +725,16 @@ Section Eval.
         | Some (PList l), Some (PInt z) | Some (PTuple l), Some (PInt z) => seq_index l z
         | Some (PDict kvs), Some k => dict_find kvs k
         | _, _ => None
+        end
+    | ESlice a lo hi st =>
+        match peval a, peval_opt peval lo, peval_opt peval hi, peval_opt peval st with
+        | Some v, Some l, Some h, Some s => slice_sem v l h s
+        | _, _, _, _ => None
+        end
+    | ECall (EVar f) args [] None None =>         (* a builtin, unless the name is bound to a value *)
+        match lookup f rho with
+        | Some _ => None
+        | None => match mapo peval args with Some vs => builtin_sem f vs | None => None end
         end
     | _ => None
     end.
